@@ -71,6 +71,11 @@ def worker(unit, emit):
 def main():
     chk = run.Check(PROP)
     quick = chk.tier == 'quick'
+    # design level: which compositions of the clean-up primitives give a fixed point (ApiDesign.tla)
+    chk.mc('ApiDesign', 'MC_ApiDesign_code', workers=8, label='clean-up pipeline as the code composes it, all strings <= 3')
+    chk.mc('ApiDesign', 'MC_ApiDesign_code4', workers=8, label='same, strings <= 4')
+    chk.mc('ApiDesign', 'MC_ApiDesign_strip_then_prefix', workers=4, expect_violation='FixedPoint', label='hazard: prefix dropped after strip (no.mva before the fix)')
+    chk.mc('ApiDesign', 'MC_ApiDesign_inner_strips_more', workers=4, expect_violation='FixedPoint', label='hazard: inner validator deletes more than the outer (ch.ssn)')
     scripts1 = gen_scripts(chk, 'Gen_Decor1')
     scripts2 = gen_scripts(chk, 'Gen_Decor2R', simulate='num=%d' % (150 if quick else 3000), depth=3)
     p = {'seed': chk.seed, 'bases': 3 if quick else 25, 'pres': 30 if quick else 400, 'k': 1 if quick else 3,
